@@ -15,8 +15,8 @@ only = sys.argv[1:]
 for d in src_dirs:
     base = os.path.basename(os.path.dirname(d)).split('_')[0]
     prop = base[:3]
-    name = '%s-%s%s' % (prop, 'r2' if base.endswith('b') else '',
-                        os.path.basename(d))
+    rnd = {'b': 'r2', 'c': 'r3'}.get(base[3:], '')
+    name = '%s-%s%s' % (prop, rnd, os.path.basename(d))
     if only and name not in only:
         continue
     vet = os.path.join(d, 'vet.json')
